@@ -28,6 +28,10 @@ ASSUMPTIONS = [
 MIN_NONTRIVIAL = {"quick": 250, "thorough": 4000}
 REQUIRED_MONITORS = ["field", "target_vars", "gradient_fd", "closed_form_derivative", "numeric_individual_prediction", "numeric_eta_gradient"]
 BATCH_TIMEOUT = {"quick": 2400, "thorough": 6 * 3600}
+# pharmpy's numeric evaluators die in native code (stack overflow of the symbolic engine, SIGSEGV) on some of the deeply
+# nested generated $PRED models; such a case is skipped and counted (worker-crash:status11), and up to 4 % of them leave
+# the run conclusive (observed: 3-9 of 600)
+WORKER_CRASH_TOLERANCE = 0.04
 
 
 def n_cases(tier):
